@@ -31,7 +31,14 @@ TEXTS = ["", "plain", "quote\" and \\ backslash", "single ' quote", "new\nline\t
          "non-BMP \U0001F600 \U00010000", "퟿", "</script>  ", "%s %d {} {0} $1", "x' OR 1=1 --", "[\"EVENT\"]", "\\u0041 \\n"]
 SUBIDS = ["s", "", "a\"b", "a\\b", "é", "new\nline", "x" * 64]
 TAGSETS = [[], [["e", "00" * 32]], [["t", ""]], [["t", "quote\"", "third \\ item"]], [["amount", 1000]], [["n", -5, 0]], [["a"], ["b", "x", "y", "z"]],
-           [["t", "中"], ["t", "nul\x00"]], [["big", 2 ** 63 - 1]]]
+           [["t", "中"], ["t", "nul\x00"]], [["big", 2 ** 63 - 1]],
+           # integers beyond 64 bits in positions the SQL tag table does not bind (seed C04-e: a decoder that turns them into floats)
+           [["x", "v", 2 ** 64]], [["x", "v", 2 ** 64 + 1, -2 ** 63 - 1]], [["x", "v", 10 ** 30, 2 ** 64 - 1]]]
+
+
+def same(a, b):
+    """equal as JSON texts: 2**64 and 1.8446744073709552e+19 compare equal in Python but are different JSON numbers"""
+    return json.dumps(a, sort_keys=True) == json.dumps(b, sort_keys=True)
 
 
 def events():
@@ -73,7 +80,7 @@ async def run():
                 fails.append(("stored-event-not-returned", {"event": obj}))
                 continue
             bobj = back.to_json_object()
-            if json.loads(json.dumps(bobj)) != json.loads(json.dumps(obj)):
+            if not same(bobj, obj):
                 fails.append(("stored-event-differs", {"accepted": obj, "served": bobj}))
             # the live path serves the object add_event returns (what notify_all_connected is given), after everything add_event did to it
             for which, e in (("stored", back), ("live", stored_ev)):
@@ -89,7 +96,7 @@ async def run():
                     except Exception as ex:  # noqa
                         fails.append(("frame-is-not-json", {"path": which, "sub_id": sid, "event": obj, "frame": frame[:200], "error": str(ex)[:80]}))
                         continue
-                    if parsed != ["EVENT", sid, json.loads(json.dumps(obj))]:
+                    if not same(parsed, ["EVENT", sid, json.loads(json.dumps(obj))]):
                         fails.append(("frame-differs-from-accepted-event", {"path": which, "sub_id": sid, "accepted": obj, "frame": frame[:300]}))
                     elif len(samples) < 3 and which == "stored" and sid == "a\"b":
                         samples.append({"accepted": obj, "sub_id": sid, "frame": frame})
